@@ -537,7 +537,8 @@ def gen_pv_cases(rng, tier, nets):
         return 'litecoin' if net != 'litecoin' else 'bitcoin'
 
     # ---- Key / HDKey level: every entry point, the full product of its arguments, several kinds of source key
-    plan = [('master', 'bitcoin', 'segwit'), ('warm', rng.choice(seg_nets), 'segwit'), ('ms', rng.choice(seg_nets), 'p2sh-segwit')]
+    plan = [('master', 'bitcoin', 'segwit'), ('warm', rng.choice(seg_nets), 'segwit'), ('ms', rng.choice(seg_nets), 'p2sh-segwit'),
+            ('acct', rng.choice(seg_nets), 'legacy')]
     if big:
         plan += [('acct', 'bitcoin', 'segwit'), ('warm', 'dogecoin', 'legacy'), ('master', 'bitcoinlib_test', 'legacy')]
         plan += [(rng.choice(['master', 'warm', 'ms', 'acct']), n, rng.choice(WITNESS_TYPES)) for n in nets]
@@ -571,7 +572,7 @@ def gen_pv_cases(rng, tier, nets):
         toks = []
         for q in sorted(eps):
             if VIEW_ENTRIES.get(q) in ('w', 'wk'):
-                specs, unknown = arg_specs(eps[q] or [], rng, 400 if big else 28, other(net))
+                specs, unknown = arg_specs(eps[q] or [], rng, 400 if big else 48, other(net))
                 for u in unknown:
                     cs.append(Case('pv_unreviewed', 'pv-unreviewed parameter %s of %s' % (u, q)))
                 toks.append('%s@%s' % (q, ';'.join(specs)))
